@@ -64,3 +64,35 @@ def run_gen(chk, drv):
                 abs(float(b["fs"]) - m_fs) > 1e-9 * abs(m_fs):
             chk.disagree("gen.psd_nperseg_frac", inp, dict(nperseg=m_np, fs=m_fs), b)
         chk.nontriv(("gen.psd", n, dt))
+    run_stamps(chk)
+
+
+def run_stamps(chk):
+    """a uniformly sampled signal whose time array is given as naive date-time stamps (a spelling TimeSeries accepts), spanning the
+    daylight-saving changes of the zones ./check runs in: its spectrum is that of the same samples on the
+    float time axis (the time step does not vary, whatever the local time zone is)"""
+    from datetime import datetime, timedelta
+    from qats import TimeSeries
+    rng = chk.rng
+    for _ in range(2 if chk.quick else 8):
+        n = rng.choice([256, 400, 600])
+        dt = rng.choice([3600.0, 3600.0, 1800.0])      # 12 to 25 days: the span holds the daylight-saving change of every zone ./check uses
+        t = np.arange(n) * dt
+        x = np.sin(2 * np.pi * t / (12 * dt)) + 0.3 * np.sin(2 * np.pi * t / (5 * dt)) + rng.choice([0.0, 4.0])
+        t0 = datetime(2000, 3, 15, 0, 30) if rng.random() < 0.7 else datetime(2000, 10, 20, 0, 30)
+        stamps = [t0 + timedelta(seconds=float(v)) for v in t]
+        inp = dict(kind="stamps", n=n, dt=dt, start=str(t0), TZ=__import__("os").environ.get("TZ"))
+        chk.count("stamps")
+        chk.nontriv(("stamps", n, dt, str(t0)))
+        try:
+            f0, p0 = TimeSeries("s", t, x).psd()
+            f1, p1 = TimeSeries("s", np.array(stamps), x).psd()
+            ok = np.shape(f0) == np.shape(f1) and np.allclose(f0, f1, rtol=1e-9, atol=0) and np.allclose(p0, p1, rtol=1e-9, atol=1e-300)
+            obs = [np.asarray(f1)[:4].tolist(), np.asarray(p1)[:4].tolist()]
+        except Exception as e:      # noqa
+            ok, obs = False, "raised %s: %s" % (type(e).__name__, e)
+            f0, p0 = [], []
+        if not ok:
+            chk.fail("the spectrum of a uniformly sampled signal given with date-time stamps is the Welch density of its samples at its "
+                     "time step (frequencies k/(nperseg dt)), in every local time zone", inp,
+                     [np.asarray(f0)[:4].tolist(), np.asarray(p0)[:4].tolist()], obs)
